@@ -779,4 +779,16 @@ def richRo (maxW : UInt16) (lines : List (List Cell)) : Ro :=
       else none }
 
 
+/-- the interpreter's parameters for a soft-wrapped Text in style `st` whose scanner yields `lines` at `Max.Width` -/
+def textRo (maxW : UInt16) (st : Nat) (lines : List (List Cell)) : Ro :=
+  let R0 : Ro := { noRo with
+    fields := fun f => if f = "Softwrap" then some (.bool true) else if f = "Content" then some .text
+                       else if f = "Style" then some (.sty st) else none,
+    soft := lines, wrapW := maxW }
+  { R0 with self := fun f args =>
+      if f = "meth:findContainerSize" then
+        some ((run R0 Gen.SurfaceBodies.textFindContainerSize Gen.SurfaceBodies.textFindContainerSizeParams args (Screen.resize 0 0)).map (·.1))
+      else none }
+
+
 end VaxisModel.Lemmas.SurfExec
